@@ -7,6 +7,7 @@ import TsV.Model.Serde
 import TsV.Model.Topsort
 import TsV.Model.Encode
 import TsV.Model.Generate
+import TsV.Model.Writer
 /-!
 # `tsmodel`: one s-expression request per line in, one JSON answer per line out.
 The driver only decodes, calls the model's executable definitions and prints.
@@ -204,6 +205,19 @@ def handle (st : DriverState) (req : Sx) : DriverState × J :=
         | .err e => .obj [("err", .str (Encode.errName e).toList)]
         | .panic p => .obj [("panic", .str p)])
       | _, _, _, _, _ => bad "generate")
+  | .list [.atom "writer-run", .list fs, now, .list outs] =>
+    (st, match fs.mapM (fun e => match e with
+            | .list [.str p, .str b, m] => do some (p, (⟨b, ← m.asNat?⟩ : Writer.FileState))
+            | _ => none),
+          now.asNat?, outs.mapM (fun e => match e with
+            | .list [.str p, .str b] => some (p, b)
+            | _ => none) with
+      | some fs0, some t, some os =>
+        let (fs1, acts) := Writer.run fs0 t os
+        .obj [("fs", .arr (fs1.map fun (p, f) => .arr [.str p, .str f.bytes, .num f.mtime])),
+              ("actions", .arr (acts.map fun a => .str (match a with
+                | .skippedSame => "skipped-same" | .skippedEmpty => "skipped-empty" | .wrote => "wrote").toList))]
+      | _, _, _ => bad "writer-run")
   | .list [.atom "tryfrom", t] =>
     (st, match Decode.ty t with
       | some ty => jOutcome Encode.ty (RustTypes.tryFrom ty)
